@@ -37,6 +37,7 @@ type Op struct {
 	Delta   int    `json:"delta,omitempty"`
 	Yield   int    `json:"yield,omitempty"`    // yields inside the transform function
 	EOFData bool   `json:"eof_data,omitempty"` // write: the content reader returns its last chunk together with io.EOF
+	File    int    `json:"file,omitempty"`     // which of the plan's files the operation addresses
 }
 
 type TaskPlan struct {
@@ -56,6 +57,7 @@ type FaultPlan struct {
 type Plan struct {
 	Fresh   bool        `json:"fresh,omitempty"` // the file does not exist at the start
 	Link    int         `json:"link,omitempty"`  // 1: every client names the file through a symbolic link; 2: every other client does
+	Files   int         `json:"files,omitempty"` // 2: the operations are spread over two files (two independent registers in one process)
 	InitLen int         `json:"init_len"`
 	Tasks   []TaskPlan  `json:"tasks"`
 	Fault   *FaultPlan  `json:"fault,omitempty"`
@@ -101,6 +103,14 @@ func genPlan(t *rapid.T, tier string) any {
 				total++
 			}
 			p.Tasks = append(p.Tasks, tp)
+		}
+	}
+	if rapid.IntRange(0, 3).Draw(t, "twofiles") == 0 {
+		p.Files = 2
+		for ti := range p.Tasks {
+			for oi := range p.Tasks[ti].Ops {
+				p.Tasks[ti].Ops[oi].File = rapid.IntRange(0, 1).Draw(t, "file")
+			}
 		}
 	}
 	if rapid.IntRange(0, 2).Draw(t, "faulty") == 0 {
@@ -255,16 +265,29 @@ func run(t *testing.T, plan any, keep bool) *simcheck.Outcome {
 	dir := filepath.Join(base, "c07")
 	os.RemoveAll(dir)
 	os.MkdirAll(dir, 0o777)
-	path := filepath.Join(dir, "register")
-	link := filepath.Join(dir, "register-link")
-	if p.Link != 0 {
-		os.Symlink(path, link)
+	type reg struct {
+		path, link string
+		events     []porcupine.Event
+		published  bool // some Write or successful Transform has returned
+		f2Hits     int
 	}
-	pathOf := func(client int) string {
-		if p.Link == 1 || p.Link == 2 && client%2 == 1 {
-			return link
+	nfiles := 1
+	if p.Files == 2 {
+		nfiles = 2
+	}
+	var regs []*reg
+	for i := 0; i < nfiles; i++ {
+		r := &reg{path: filepath.Join(dir, fmt.Sprintf("register%d", i)), link: filepath.Join(dir, fmt.Sprintf("register%d-link", i))}
+		if p.Link != 0 {
+			os.Symlink(r.path, r.link)
 		}
-		return path
+		regs = append(regs, r)
+	}
+	pathOf := func(r *reg, client int) string {
+		if p.Link == 1 || p.Link == 2 && client%2 == 1 {
+			return r.link
+		}
+		return r.path
 	}
 	simos.Reset()
 	simtime.Reset()
@@ -273,34 +296,34 @@ func run(t *testing.T, plan any, keep bool) *simcheck.Outcome {
 	simos.SetClassifier(func(string) string { return "reg" })
 	defer simos.SetClassifier(simos.DefaultClass)
 
-	var events []porcupine.Event
 	evID := 0
-	invoke := func(client int, in input) int {
+	invoke := func(r *reg, client int, in input) int {
 		evID++
-		events = append(events, porcupine.Event{ClientId: client, Kind: porcupine.CallEvent, Value: in, Id: evID})
+		r.events = append(r.events, porcupine.Event{ClientId: client, Kind: porcupine.CallEvent, Value: in, Id: evID})
 		return evID
 	}
-	ret := func(client, id int, o output) {
-		events = append(events, porcupine.Event{ClientId: client, Kind: porcupine.ReturnEvent, Value: o, Id: id})
+	ret := func(r *reg, client, id int, o output) {
+		r.events = append(r.events, porcupine.Event{ClientId: client, Kind: porcupine.ReturnEvent, Value: o, Id: id})
 	}
-	dropCall := func(id int) {
-		for i := range events {
-			if events[i].Id == id && events[i].Kind == porcupine.CallEvent {
-				events = append(events[:i:i], events[i+1:]...)
+	dropCall := func(r *reg, id int) {
+		for i := range r.events {
+			if r.events[i].Id == id && r.events[i].Kind == porcupine.CallEvent {
+				r.events = append(r.events[:i:i], r.events[i+1:]...)
 				return
 			}
 		}
 	}
-	published := false // some Write or successful Transform has returned
-	initState := absent
-	if !p.Fresh {
-		initState = identOf(value(1, lengths[p.InitLen]))
-		os.WriteFile(path, value(1, lengths[p.InitLen]), 0o666)
+	for i, r := range regs {
+		initState := absent
+		if !p.Fresh {
+			// each file starts with its own value
+			initState = identOf(value(1+i, lengths[p.InitLen]))
+			os.WriteFile(r.path, value(1+i, lengths[p.InitLen]), 0o666)
+		}
+		id0 := invoke(r, 0, input{"init", initState})
+		ret(r, 0, id0, output{})
 	}
-	id0 := invoke(0, input{"init", initState})
-	ret(0, id0, output{})
 
-	f2Hits := 0
 	concurrentOps := 0
 	inflight := 0
 	faultFired := false
@@ -313,14 +336,15 @@ func run(t *testing.T, plan any, keep bool) *simcheck.Outcome {
 			concurrentOps++
 		}
 		defer func() { inflight-- }()
-		path := pathOf(client)
+		r := regs[op.File%len(regs)]
+		path := pathOf(r, client)
 		switch op.Kind {
 		case "read":
-			eid := invoke(client, input{kind: "read"})
-			publishedAtInvoke := published
+			eid := invoke(r, client, input{kind: "read"})
+			publishedAtInvoke := r.published
 			data, err := lockedfile.Read(path)
 			if err != nil {
-				ret(client, eid, output{err: true, noexist: notExist(err)})
+				ret(r, client, eid, output{err: true, noexist: notExist(err)})
 				if !notExist(err) {
 					out.Violate("read-error", "Read failed without an injected fault: %v", err)
 				}
@@ -329,8 +353,8 @@ func run(t *testing.T, plan any, keep bool) *simcheck.Outcome {
 			if len(data) == 0 && p.Fresh && !publishedAtInvoke {
 				// candidate for the known finding F2 (the file was created by a Write / Transform /
 				// Edit that has not published contents): dropped from the history, reported at the end
-				f2Hits++
-				dropCall(eid)
+				r.f2Hits++
+				dropCall(r, eid)
 				return
 			}
 			id, ok := parse(data)
@@ -344,22 +368,22 @@ func run(t *testing.T, plan any, keep bool) *simcheck.Outcome {
 				} else {
 					out.Violate("torn-read", "Read returned %d bytes that are not exactly one written value (starts %q)", len(data), head)
 				}
-				ret(client, eid, output{id: -2})
+				ret(r, client, eid, output{id: -2})
 				return
 			}
-			ret(client, eid, output{id: id})
+			ret(r, client, eid, output{id: id})
 		case "write":
 			v := value(opid, lengths[op.Len])
-			eid := invoke(client, input{kind: "write", id: identOf(v)})
+			eid := invoke(r, client, input{kind: "write", id: identOf(v)})
 			err := lockedfile.Write(path, &chunkReader{v, max(p.Chunk, len(v)/12), op.EOFData}, 0o666)
-			ret(client, eid, output{err: err != nil})
+			ret(r, client, eid, output{err: err != nil})
 			if err != nil {
 				out.Violate("write-error", "Write failed without an injected fault: %v", err)
 			} else {
-				published = true
+				r.published = true
 			}
 		case "transform":
-			eid := invoke(client, input{kind: "transform", id: opid})
+			eid := invoke(r, client, input{kind: "transform", id: opid})
 			o := output{}
 			newID := opid
 			err := lockedfile.Transform(path, func(old []byte) ([]byte, error) {
@@ -401,7 +425,12 @@ func run(t *testing.T, plan any, keep bool) *simcheck.Outcome {
 						newID = o.id
 						return old, nil
 					}
-					newID = identOf(old[:k])
+					id, ok := parse(old[:k])
+					if !ok {
+						out.Violate("torn-read", "the bytes Transform gave to its function changed while the function ran (a prefix of them is no longer a prefix of the value they held)")
+						return old, nil
+					}
+					newID = id
 					return old[:k], nil
 				case "aliasappend":
 					// the result extends the given slice in place (append into its spare capacity
@@ -413,7 +442,12 @@ func run(t *testing.T, plan any, keep bool) *simcheck.Outcome {
 							n, _ := strconv.Atoi(string(parts[1]))
 							if extra := min(op.Delta, n-len(old)); extra > 0 {
 								r := append(old, value(vid, n)[len(old):len(old)+extra]...)
-								newID = identOf(r)
+								id, ok := parse(r)
+								if !ok {
+									out.Violate("torn-read", "the bytes Transform gave to its function changed while the function ran (extended in place they are no longer a prefix of the value they held)")
+									return old, nil
+								}
+								newID = id
 								return r, nil
 							}
 						}
@@ -435,14 +469,14 @@ func run(t *testing.T, plan any, keep bool) *simcheck.Outcome {
 				newID = absent // an unchanged empty file
 			}
 			// patch the invoke event with the value actually produced
-			for i := range events {
-				if events[i].Id == eid && events[i].Kind == porcupine.CallEvent {
-					events[i].Value = input{kind: "transform", id: newID}
+			for i := range r.events {
+				if r.events[i].Id == eid && r.events[i].Kind == porcupine.CallEvent {
+					r.events[i].Value = input{kind: "transform", id: newID}
 				}
 			}
-			ret(client, eid, o)
+			ret(r, client, eid, o)
 			if err == nil && newID > 0 {
-				published = true
+				r.published = true
 			}
 			if err != nil && op.TKind != "error" && client != 99 {
 				out.Violate("transform-error", "Transform failed without an injected fault: %v", err)
@@ -480,22 +514,24 @@ func run(t *testing.T, plan any, keep bool) *simcheck.Outcome {
 		simos.Disarm()
 		_, fired := simos.Counters()
 		faultFired = fired["kind:error"]+fired["kind:short"] > 0
-		// a final quiescent read closes the history
-		eid := invoke(98, input{kind: "read"})
-		data, err := os.ReadFile(path)
-		switch {
-		case err != nil:
-			ret(98, eid, output{err: true, noexist: notExist(err)})
-		case len(data) == 0 && p.Fresh && !published:
-			// the file was created and nothing was ever published
-			dropCall(eid)
-		default:
-			id, ok := parse(data)
-			if !ok {
-				out.Violate("torn-contents", "after quiescence the file holds %d bytes that are not exactly one written value", len(data))
-				ret(98, eid, output{id: -2})
-			} else {
-				ret(98, eid, output{id: id})
+		// a final quiescent read closes each history
+		for _, r := range regs {
+			eid := invoke(r, 98, input{kind: "read"})
+			data, err := os.ReadFile(r.path)
+			switch {
+			case err != nil:
+				ret(r, 98, eid, output{err: true, noexist: notExist(err)})
+			case len(data) == 0 && p.Fresh && !r.published:
+				// the file was created and nothing was ever published
+				dropCall(r, eid)
+			default:
+				id, ok := parse(data)
+				if !ok {
+					out.Violate("torn-contents", "after quiescence the file holds %d bytes that are not exactly one written value", len(data))
+					ret(r, 98, eid, output{id: -2})
+				} else {
+					ret(r, 98, eid, output{id: id})
+				}
 			}
 		}
 	})
@@ -505,7 +541,9 @@ func run(t *testing.T, plan any, keep bool) *simcheck.Outcome {
 		out.Violate("deadlock", "no task can run: %s", rep.DescribeBlocked())
 	}
 	if rep.StepCap {
-		out.Inconclusive = "step cap: " + rep.DescribeBlocked()
+		// 200000 decisions is more than a thousand times what the longest fault-free plan needs: some
+		// operation is spinning instead of completing
+		out.Violate("no-progress", "operations did not complete within %d decisions: %s", rep.Steps, rep.DescribeBlocked())
 	}
 	if doubleFault {
 		// rollback itself failing: contents are unspecified; only "no panic, no deadlock"
@@ -514,17 +552,26 @@ func run(t *testing.T, plan any, keep bool) *simcheck.Outcome {
 		}
 		out.Count("double_fault_runs", 1)
 	} else if out.Violation == nil && out.Inconclusive == "" {
-		res := porcupine.CheckEventsTimeout(model, events, 20*time.Second)
-		switch res {
-		case porcupine.Illegal:
-			out.Violate("not-linearizable", "the history of %d operations has no linearization against a register (stale read, lost update, or a failed Transform that changed the contents): %s", len(events)/2, describe(events))
-		case porcupine.Unknown:
-			out.Count("porcupine_unknown", 1)
+		for fi, r := range regs {
+			res := porcupine.CheckEventsTimeout(model, r.events, 20*time.Second)
+			switch res {
+			case porcupine.Illegal:
+				out.Violate("not-linearizable", "the history of %d operations on file %d has no linearization against a register (stale read, lost update, a failed Transform that changed the contents, or contents that belong to another file): %s", len(r.events)/2, fi, describe(r.events))
+			case porcupine.Unknown:
+				out.Count("porcupine_unknown", 1)
+			}
+			out.Count("histories_checked", 1)
 		}
-		out.Count("histories_checked", 1)
+	}
+	f2Hits := 0
+	for _, r := range regs {
+		f2Hits += r.f2Hits
 	}
 	if out.Violation == nil && f2Hits > 0 {
 		out.Violate("empty-read-before-first-write", "file absent at the start: %d Read call(s) returned empty contents with a nil error while the first Write/Transform had created the file but not yet locked and filled it", f2Hits)
+	}
+	if nfiles == 2 {
+		out.Count("two_file_runs", 1)
 	}
 	out.Nontrivial = concurrentOps > 0
 	ops, fired := simos.Counters()
@@ -565,7 +612,7 @@ var harness = &simcheck.Harness{
 	Property: "C07",
 	Level:    "exploration",
 	Rule: "rapid draws 1-3 simulated processes x 1-2 goroutines x 1-4 operations (Read, Write of a self-checking value of length 0..70000 fed in chunks, Transform producing a longer / shorter / same-length / unchanged value, a prefix of or an in-place extension of the slice it was given, or failing) " +
-		"on one file that exists (5 of 6) or is absent at the start, named directly or (two plans in five) through a symbolic link by all or by every other client; a third of the plans add one Transform in its own process whose k-th file operation (open, flock, read, write, truncate, close) fails with EIO / ENOSPC / ENOSYS or writes short then fails; thorough adds double faults; " +
+		"on one file, or spread over two files (a quarter of the plans; each file is its own register), that exist (5 of 6) or are absent at the start, named directly or (two plans in five) through a symbolic link by all or by every other client; a third of the plans add one Transform in its own process whose k-th file operation (open, flock, read, write, truncate, close) fails with EIO / ENOSPC / ENOSYS or writes short then fails; thorough adds double faults; " +
 		"torn transfers on/off; histories of at most 24 operations are checked with porcupine; non-trivial = some operation started while another was in flight; distinct by decision-trace hash",
 	Gen:     genPlan,
 	NewPlan: func() any { return &Plan{} },
